@@ -39,7 +39,11 @@ def gen_spec(rng):
         basis = list(OPS)
         rng.shuffle(basis)
     else:
-        basis = BASES[bkind.upper()]
+        # what the code says the built-in basis is (the model spec takes the operation list as data)
+        from cirbo.synthesis.circuit_search import Basis
+        basis = [o.value for o in getattr(Basis, bkind.upper()).value]
+        if sorted(basis) != sorted(BASES[bkind.upper()]):
+            basis = basis  # a changed basis definition is reported by search() against the documented sets
     cons = []
     gates = list(range(n, n + N))
     for _ in range(rng.choice([0, 0, 0, 1, 1, 2, 3])):
@@ -276,6 +280,11 @@ def brute_force_exists(spec, accepted):
 def search(ctx):
     rng = ctx.rng('search')
     from cirbo.synthesis.exception import NoSolutionError
+    from cirbo.synthesis.circuit_search import Basis
+    for name, ops in BASES.items():
+        got = sorted(o.value for o in getattr(Basis, name).value)
+        if got != sorted(ops):
+            ctx.violation('synth.basis_def', f'Basis.{name} is {got}, documented {sorted(ops)}', input={'basis': name})
     for k in range(ctx.scale(160, 2500)):
         spec = gen_spec(rng)
         ctx.case(json.dumps(['s', spec]))
